@@ -58,6 +58,7 @@ IsSpace(c)  == c \in {32, 9, 10, 12, 13}
 WordAt(v, a, b) == a <= b /\ (\A j \in a..b : ~IsSpace(v[j]))
                    /\ (a = 1 \/ IsSpace(v[a - 1])) /\ (b = Len(v) \/ IsSpace(v[b + 1]))
 HasWord(v, n) == \E a \in 1..Len(v) : \E b \in a..Len(v) : WordAt(v, a, b) /\ SubSeq(v, a, b) = n
+AllSpace(v) == \A j \in 1..Len(v) : IsSpace(v[j])
 AttrMatch(op, v0, n0, ci) ==
   LET v == Fold(v0, ci)  n == Fold(n0, ci) IN
   CASE op = "exists" -> TRUE
@@ -66,9 +67,11 @@ AttrMatch(op, v0, n0, ci) ==
     \* the class selector .n on the attribute `class`: n is one of its words
     [] op = "class" -> HasWord(v, n)
     [] op = "|=" -> v = n \/ IsPre(n \o <<45>>, v)
-    [] op = "^=" -> n # <<>> /\ IsPre(n, v)
-    [] op = "$=" -> n # <<>> /\ IsSuf(n, v)
-    [] op = "*=" -> n # <<>> /\ IsSub(n, v)
+    \* (a value made of white space only is matched by none of the three substring operators: the repository's own tests,
+    \* taken from the CSS3 selectors test suite, pin this reading)
+    [] op = "^=" -> n # <<>> /\ IsPre(n, v) /\ ~AllSpace(v)
+    [] op = "$=" -> n # <<>> /\ IsSuf(n, v) /\ ~AllSpace(v)
+    [] op = "*=" -> n # <<>> /\ IsSub(n, v) /\ ~AllSpace(v)
 
 ---------------------------------------------------------------------------
 (* Matching: the declarative definition *)
@@ -157,9 +160,11 @@ Chars(str) == CASE str = "" -> <<>> [] str = "ab" -> <<97, 98>> [] str = "AB" ->
                 [] str = "ab<12>cd" -> <<97, 98, 12, 99, 100>> [] str = "ab<13>cd" -> <<97, 98, 13, 99, 100>>
                 [] str = "ab<11>cd" -> <<97, 98, 11, 99, 100>> [] str = "ab<160>cd" -> <<97, 98, 160, 99, 100>>
                 [] str = "ab<8195>cd" -> <<97, 98, 8195, 99, 100>> [] str = "<160>ab" -> <<160, 97, 98>>
+                \* KELVIN SIGN: equal to "k" under Unicode case folding, not under the ASCII folding of the i flag
+                [] str = "<8490>" -> <<8490>> [] str = "k" -> <<107>> [] str = " " -> <<32>>
 AttrVals    == {"", "ab", "AB", "ab-cd", "ab cd", " ab", "a  b", "ab-", "cd ab", "aB",
-                "ab<9>cd", "ab<10>cd", "ab<12>cd", "ab<13>cd", "ab<11>cd", "ab<160>cd", "ab<8195>cd", "<160>ab"}
-AttrNeedles == {"", "ab", "AB", "b", "cd", "ab cd", "ab-"}
+                "ab<9>cd", "ab<10>cd", "ab<12>cd", "ab<13>cd", "ab<11>cd", "ab<160>cd", "ab<8195>cd", "<160>ab", "<8490>", " "}
+AttrNeedles == {"", "ab", "AB", "b", "cd", "ab cd", "ab-", "k", " "}
 AttrTree(v) == [n |-> 2, par |-> <<0, 1>>, kind |-> <<"elem", "elem">>, tag |-> <<"html", "p">>, cls |-> <<FALSE, FALSE>>,
                 id |-> <<FALSE, FALSE>>, hasattr |-> <<FALSE, v # "absent">>, attr |-> <<<<>>, IF v = "absent" THEN <<>> ELSE Chars(v)>>,
                 blank |-> <<FALSE, FALSE>>]
